@@ -41,14 +41,24 @@ P = {
          "every atomic access (ENV).", "Kani/CBMC SAT-based BMC with a re-entrant environment at access points", TRUST, "DESIGN.md §3 C12"),
  "C13": (True, "cloned()/copied(): same inductive step as the underlying iterator (same counter accesses, same positions) with a clone ledger, "
          "and lock-step differential histories.", "Kani/CBMC SAT-based BMC, differential", TRUST, "DESIGN.md §3 C13"),
- "C14": (False, "", "", "not built yet", ""),
- "C15": (False, "", "", "not built yet", ""),
- "C16": (False, "", "", "not built yet", ""),
+ "C14": (True, "Two solver-decided clauses: (a) every unsafe impl Send/Sync of the crate entails the auto-trait bounds its fields require "
+         "(propositional encoding regenerated from the source, z3 cross-checked with cvc5; counterexamples replayed by compiling a generated "
+         "client program); (b) short sequences of the safe low-level calls with a drop ledger (Kani). The borrow-lifetime clause is decided by "
+         "the Rust borrow checker and is NOT covered by this technique.",
+         "z3/cvc5 propositional entailment over parsed struct/impl declarations + Kani BMC", TRUST + " Structural auto-trait rules in driver/extra.py.", "DESIGN.md §3 C14"),
+ "C15": (True, "CBMC's memory-leak check (every malloc'ed object freed at exit) over symbolic histories on Vec, array and owning "
+         "wrapped iterators, including heap-owning elements and a repeated create/consume/drop round.",
+         "Kani/CBMC SAT-based BMC with --memory-leak-check", TRUST, "DESIGN.md §3 C15"),
+ "C16": (True, "Fully symbolic 64-bit range bounds and chunk sizes (0..usize::MAX) on every kind: no overflow reachable in the checked "
+         "profile, exact values/indices/lengths, zero-size semantics, documented panics for chunk size 0.",
+         "Kani/CBMC SAT-based BMC over full-width bit-vectors", TRUST + " Cumulative requests >= usize::MAX are known finding KF-C16-wrap.", "DESIGN.md §3 C16"),
  "C17": (True, "Checked profile (overflow checks, debug assertions, bounds checks) of the crate code is panic-free on ordinary histories, "
          "so the unchecked profile executes the same statements with the same values.", "Kani/CBMC SAT-based BMC of the checked profile",
          TRUST + " std preconditions (ub_checks) are not evaluated by Kani; see DESIGN.md.", "DESIGN.md §3 C17"),
- "C18": (False, "", "", "not built yet", ""),
- "C19": (False, "", "", "not built yet", ""),
+ "C18": (False, "", "", "Kani/CBMC model a panic as abort: unwinding (and hence what runs or is dropped while unwinding) cannot be encoded; the no-hang clause under a halt model is not built yet", ""),
+ "C19": (True, "Two iterators and a clone over one collection (Vec, array + sub-slice, range) under symbolic interleaved histories, one "
+         "reference cursor each; pointer identity of delivered references; collection compared with a copy afterwards.",
+         "Kani/CBMC SAT-based BMC", TRUST, "DESIGN.md §3 C19"),
 }
 
 
